@@ -1140,4 +1140,228 @@ theorem late_agrees {q : List (String × QV)} {md : List (Nat × Nat)} {p : AddP
         simp [hr] at hc
     · simp [hcond]
 
+/-! ### the converse of `addp`: which queries `AddParamsFromQuery` accepts, and `parseClauses` of `seenOf` (round 8 final) -/
+
+theorem boolParam_isSome (v : QV) (d d' : Bool) : (boolParam v d).isSome = (boolParam v d').isSome := by
+  cases v with
+  | valid x => cases x <;> rfl
+  | _ => rfl
+
+/-- every add option that `AddParamsFromQuery` itself decodes (the bools, layout, format, cid-version) decodes;
+    chunker and hash are stored unchecked there -/
+def addParseOk (q : List (String × QV)) : Bool :=
+  addBoolKeys.all (fun k => (boolParam (getq q k) false).isSome) &&
+  (wordParam (getq q "layout")).isSome && (wordParam (getq q "format")).isSome &&
+  (intParam (getq q "cid-version") 0).isSome
+
+/-- CID version 0 asked for by name with a hash function that is not sha2-256 (an unknown name included) -/
+def v0OtherHash (q : List (String × QV)) : Bool := otherHash q && getq q "cid-version" == .valid (.int 0)
+
+theorem cidv_isSome (q : List (String × QV)) :
+    ((intParam (getq q "cid-version") 0).bind (effCidv q)).isSome =
+      ((intParam (getq q "cid-version") 0).isSome && !v0OtherHash q) := by
+  unfold effCidv v0OtherHash
+  generalize otherHash q = b
+  generalize getq q "cid-version" = v
+  cases v with
+  | empty => cases b <;> simp [intParam]
+  | valid x =>
+    cases x with
+    | int i => by_cases hi : i = 0 <;> cases b <;> simp [intParam, hi]
+    | _ => simp [intParam]
+  | invalid => simp [intParam]
+  | garbled => simp [intParam]
+
+theorem addParams_isSome (q : List (String × QV)) (md : List (Nat × Nat)) :
+    (addParams q md).isSome = ((fromQuery q md).isSome && addParseOk q && !v0OtherHash q) := by
+  have hc := cidv_isSome q
+  have hraw : ∀ d, (boolParam (getq q "raw-leaves") d).isSome = (boolParam (getq q "raw-leaves") false).isSome :=
+    fun d => boolParam_isSome _ _ _
+  have hstr : ∀ d, (boolParam (getq q "stream-channels") d).isSome = (boolParam (getq q "stream-channels") false).isSome :=
+    fun d => boolParam_isSome _ _ _
+  cases hR : ((fromQuery q md).isSome && addParseOk q && !v0OtherHash q) with
+  | true =>
+    simp only [addParseOk, addBoolKeys, List.all_cons, List.all_nil, Bool.and_true, Bool.and_eq_true] at hR
+    obtain ⟨⟨h0, ⟨⟨⟨b1, b2, b3, b4, b5, b6, b7, b8, b9⟩, hl⟩, hf⟩, hi⟩, hv⟩ := hR
+    have hcs : ((intParam (getq q "cid-version") 0).bind (effCidv q)).isSome = true := by rw [hc, hi, hv]; rfl
+    obtain ⟨o, ho⟩ := Option.isSome_iff_exists.mp h0
+    obtain ⟨x1, e1⟩ := Option.isSome_iff_exists.mp b1
+    obtain ⟨x2, e2⟩ := Option.isSome_iff_exists.mp b2
+    obtain ⟨x3, e3⟩ := Option.isSome_iff_exists.mp b3
+    obtain ⟨x4, e4⟩ := Option.isSome_iff_exists.mp b4
+    obtain ⟨x5, e5⟩ := Option.isSome_iff_exists.mp b5
+    obtain ⟨x6, e6⟩ := Option.isSome_iff_exists.mp b6
+    obtain ⟨x9, e9⟩ := Option.isSome_iff_exists.mp b9
+    obtain ⟨xl, el⟩ := Option.isSome_iff_exists.mp hl
+    obtain ⟨xf, ef⟩ := Option.isSome_iff_exists.mp hf
+    obtain ⟨c, ec⟩ := Option.isSome_iff_exists.mp hcs
+    obtain ⟨x7, e7⟩ := Option.isSome_iff_exists.mp ((hraw (decide (c > 0))).trans b7)
+    obtain ⟨x8, e8⟩ := Option.isSome_iff_exists.mp ((hstr true).trans b8)
+    simp [addParams, ho, e1, e2, e3, e4, e5, e6, e7, e8, e9, el, ef, ec]
+  | false =>
+    cases hp : addParams q md with
+    | none => rfl
+    | some p =>
+      exfalso
+      unfold addParams at hp
+      split at hp
+      · rename_i o layout format loc recursive hidden wrap shard progress cidv ho hl hf h1 h2 h3 h4 h5 h6 hcv
+        split at hp
+        · rename_i raw stream nocopy h7 h8 h9
+          have h7' := hraw (decide (cidv > 0)); rw [h7] at h7'
+          have h8' := hstr true; rw [h8] at h8'
+          rw [hcv] at hc
+          simp only [Option.isSome_some] at h7' h8' hc
+          have hc' := hc.symm
+          simp only [Bool.and_eq_true] at hc'
+          simp [addParseOk, addBoolKeys, ho, hl, hf, h1, h2, h3, h4, h5, h6, h9, ← h7', ← h8', hc'.1, hc'.2] at hR
+        · simp at hp
+      · simp at hp
+
+
+theorem addOptionsOk_eq (q : List (String × QV)) :
+    addOptionsOk q = (addParseOk q && ((lateWord (getq q "chunker") "").isSome && (lateWord (getq q "hash") "").isSome)) := by
+  unfold addOptionsOk addParseOk
+  generalize (addBoolKeys.all fun k => (boolParam (getq q k) false).isSome) = a
+  generalize (wordParam (getq q "layout")).isSome = b
+  generalize (wordParam (getq q "format")).isSome = c
+  generalize (lateWord (getq q "chunker") "").isSome = d
+  generalize (lateWord (getq q "hash") "").isSome = e
+  generalize (intParam (getq q "cid-version") 0).isSome = f
+  cases a <;> cases b <;> cases c <;> cases d <;> cases e <;> cases f <;> rfl
+
+/-- with a hash word that decodes, "version 0 by name with another hash function" is the spec's contradiction -/
+theorem v0OtherHash_eq {q : List (String × QV)} (hh : (lateWord (getq q "hash") "").isSome = true) :
+    v0OtherHash q = versionContradiction q := by
+  unfold v0OtherHash versionContradiction otherHash
+  generalize getq q "cid-version" = v
+  revert hh
+  generalize getq q "hash" = h
+  intro hh
+  cases h with
+  | valid x => cases x <;> simp [lateWord] at hh ⊢ <;> exact Bool.and_comm _ _
+  | empty => simp
+  | _ => simp [lateWord] at hh
+
+theorem carried_isSome {q : List (String × QV)} (md : List (Nat × Nat)) (hg : hasGarbled q = false) :
+    (carried q md).isSome = (fromQuery q md).isSome := by
+  rw [carried_eq]
+  have : garbledOption q = false := by
+    cases hgo : garbledOption q with
+    | false => rfl
+    | true => rw [garbledOption_hasGarbled hgo] at hg; exact absurd hg (by decide)
+  simp [this]
+
+/-- when chunker and hash decode, the spec's "the query is well-formed" is exactly "the model hands `AddParams` to the adder" -/
+theorem addQueryOk_eq (q : List (String × QV)) (md : List (Nat × Nat))
+    (hc : (lateWord (getq q "chunker") "").isSome = true) (hh : (lateWord (getq q "hash") "").isSome = true) :
+    addQueryOk q md = (seenOf q md).isSome := by
+  cases hg : hasGarbled q with
+  | true => simp [addQueryOk, seenOf, hg]
+  | false =>
+    simp only [addQueryOk, seenOf, hg, carried_isSome md hg, addOptionsOk_eq, hc, hh]
+    simp
+    rw [addParams_isSome, v0OtherHash_eq hh]
+
+theorem seenOf_some {q : List (String × QV)} {md : List (Nat × Nat)} {s : AddSeen} (h : seenOf q md = some s) :
+    ∃ p, addParams q md = some p ∧ s = p.seen := by
+  unfold seenOf at h
+  split at h
+  · simp at h
+  · cases hp : addParams q md with
+    | none => simp [hp] at h
+    | some p => exact ⟨p, rfl, by simpa [hp] using h.symm⟩
+
+theorem parseClauses_seenOf (q : List (String × QV)) (md : List (Nat × Nat)) :
+    (parseClauses q md (seenOf q md)).all (·.2) = true := by
+  unfold parseClauses
+  split
+  · rename_i hok
+    have hoo : addOptionsOk q = true := by
+      simp only [addQueryOk, Bool.and_eq_true] at hok; exact hok.1.1.2
+    rw [addOptionsOk_eq] at hoo
+    simp only [Bool.and_eq_true] at hoo
+    rw [addQueryOk_eq q md hoo.2.1 hoo.2.2] at hok
+    obtain ⟨s, hs⟩ := Option.isSome_iff_exists.mp hok
+    obtain ⟨p, hp, rfl⟩ := seenOf_some hs
+    simp [hs, seenExact_of_addParams hp]
+  · rename_i hnok
+    split
+    · rfl
+    · rename_i hlate
+      have h1 : (lateWord (getq q "chunker") "").isSome = true := by
+        cases hx : lateWord (getq q "chunker") "" <;> simp [hx] at hlate ⊢
+      have h2 : (lateWord (getq q "hash") "").isSome = true := by
+        cases hx : lateWord (getq q "hash") "" <;> simp [hx] at hlate ⊢
+      rw [addQueryOk_eq q md h1 h2] at hnok
+      simpa using hnok
+
+/-! ### which add requests the spec calls malformed, against what the model refuses (for `add_model_holds`) -/
+
+theorem lateWord_isSome (v : QV) (d d' : String) : (lateWord v d).isSome = (lateWord v d').isSome := by
+  cases v with
+  | valid x => cases x <;> rfl
+  | _ => rfl
+
+theorem addParams_fields {q : List (String × QV)} {md : List (Nat × Nat)} {p : AddParams} (h : addParams q md = some p) :
+    wordParam (getq q "format") = some p.format ∧ boolParam (getq q "nocopy") false = some p.nocopy ∧
+    boolParam (getq q "stream-channels") true = some p.stream := by
+  unfold addParams at h
+  split at h
+  · rename_i o layout format loc recursive hidden wrap shard progress cidv ho hl hf h1 h2 h3 h4 h5 h6 hcv
+    split at h
+    · rename_i raw stream nocopy h7 h8 h9
+      simp only [Option.some.injEq] at h
+      subst h
+      exact ⟨hf, h9, h8⟩
+    · simp at h
+  · simp at h
+
+theorem addMalformed_of_refused (r : AddReq) (hp : addParams r.query r.md = none) : addMalformed r = true := by
+  by_cases hg : hasGarbled r.query = true
+  · simp [addMalformed, hg]
+  · have hg' : hasGarbled r.query = false := by simpa using hg
+    have h := addParams_isSome r.query r.md
+    rw [hp] at h
+    have hc := carried_isSome r.md hg'
+    by_cases hh : (lateWord (getq r.query "hash") "").isSome = true
+    · rw [v0OtherHash_eq hh] at h
+      unfold addMalformed
+      rw [addOptionsOk_eq]
+      cases h1 : (fromQuery r.query r.md).isSome <;> cases h2 : addParseOk r.query <;>
+        cases h3 : versionContradiction r.query <;> simp_all
+    · unfold addMalformed; rw [addOptionsOk_eq]; simp [hh]
+
+theorem addMalformed_of_accepted (r : AddReq) (p : AddParams) (hm : r.mp = .ok) (hg : hasGarbled r.query = false)
+    (hp : addParams r.query r.md = some p) (hl : lateFailure r p = false) : addMalformed r = false := by
+  have h := addParams_isSome r.query r.md
+  rw [hp] at h
+  have hc := carried_isSome r.md hg
+  obtain ⟨hf, hn, _⟩ := addParams_fields hp
+  simp only [lateFailure, Bool.or_eq_false_iff] at hl
+  obtain ⟨⟨⟨⟨⟨_, hlc⟩, hlh⟩, hcar⟩, hnc⟩, _⟩ := hl
+  have hlc' : (lateWord (getq r.query "chunker") "").isSome = true := by
+    rw [lateWord_isSome _ "" "size-262144"]; cases hx : lateWord (getq r.query "chunker") "size-262144" <;> simp [hx] at hlc ⊢
+  have hlh' : (lateWord (getq r.query "hash") "").isSome = true := by
+    rw [lateWord_isSome _ "" "sha2-256"]; cases hx : lateWord (getq r.query "hash") "sha2-256" <;> simp [hx] at hlh ⊢
+  rw [v0OtherHash_eq hlh'] at h
+  have hbm : bodyMismatch r.query = false := by
+    unfold bodyMismatch
+    cases hfq : getq r.query "format" == .valid (.str "car") with
+    | true => rw [eq_of_beq hfq] at hf; simp_all [wordParam]
+    | false =>
+      cases hnq : getq r.query "nocopy" == .valid (.bool true) with
+      | true => rw [eq_of_beq hnq] at hn; simp_all [boolParam]
+      | false => rfl
+  unfold addMalformed
+  rw [addOptionsOk_eq, hlc', hlh', hbm, hg, hm]
+  have h' := h.symm
+  simp only [Option.isSome_some, Bool.and_eq_true] at h'
+  obtain ⟨⟨h1, h2⟩, h3⟩ := h'
+  rw [h1] at hc
+  cases hcc : carried r.query r.md with
+  | none => simp [hcc] at hc
+  | some w => simp [h2] ; simpa using h3
+
+
 end CV.C11
